@@ -461,6 +461,51 @@ def spec_matches(c, spec):
     return c == spec
 
 
+# Cross-cutting perturbations of the harness environment.  None of them is visible to a correct library: extra bytes
+# behind the input, other pre-fill of output objects and heap blocks, an unrelated library call in front of every
+# operation, the input block off its natural alignment.  Every suite of every check is re-run in part under one of
+# them (chosen by the suite's name), against the same model output.
+PERTURBED = [
+    {"LWV_TRAIL": "16", "LWV_PREFILL": "0", "LWV_FILL": "205", "LWV_PRECALL": "1", "LWV_MISALIGN": "3"},
+    {"LWV_TRAIL": "3", "LWV_PREFILL": "255", "LWV_FILL": "0", "LWV_MISALIGN": "1"},
+    {"LWV_PREFILL": "90", "LWV_MISALIGN": "4", "LWV_PRECALL": "1"},
+]
+# operations whose harness output is defined independently of these knobs ("alloc" arms the allocation ledger itself and
+# "threads" / digests ("sweep3", "rtgrange", "descrange") are aggregate runs)
+PERTURB_OPS = {"cls", "mp", "eap", "rtp", "it", "crc", "rssi", "ie", "gen", "tg", "rtg", "desc", "tagdump", "rmac", "tagname", "epoch"}
+
+
+def perturbed_rerun(ctx, exe, suite, lines, c_outs, m_outs, what, canon_c):
+    import diffrun
+    import zlib
+    idx = [i for i, l in enumerate(lines) if l.split(" ", 1)[0] in PERTURB_OPS and c_outs[i] is not None and not c_outs[i].startswith(("CRASH", "SKIPPED"))]
+    if not idx:
+        return
+    step = max(1, len(idx) // (1500 if ctx.tier == "quick" else 12000))
+    idx = idx[(ctx.seed % step)::step]
+    env = PERTURBED[zlib.crc32(suite.encode()) % len(PERTURBED)]
+    sub = [lines[i] for i in idx]
+    outs = []
+    crashes = 0
+    for co, cr in diffrun.parallel_map(lambda ch: diffrun.run_harness_all(exe, ch, env=env), diffrun.chunked(sub, 16)):
+        outs += co
+        crashes += len(cr)
+    bad = 0
+    for i, o in zip(idx, outs):
+        mm, spec = split_model(m_outs[i])
+        a = canon_c(o) if (canon_c and o) else o
+        b = canon_c(c_outs[i]) if (canon_c and c_outs[i]) else c_outs[i]
+        if a != b:
+            bad += 1
+            if bad <= 2:
+                ctx.violation("%s@perturbed:%s" % (suite, lines[i]), "%s: `%s` gives %r in the plain environment and %r with %s — the result depends on something other than the arguments" % (
+                    what, clip(lines[i], 200), clip(c_outs[i]), clip(o), " ".join("%s=%s" % kv for kv in sorted(env.items()))),
+                    {"kind": "line", "suite": suite + "@perturbed", "line": lines[i], "observed": o, "expected": spec if spec not in (None, "any") else c_outs[i], "model": mm, "env": env})
+    ctx.count(len(sub))
+    ctx.oblige("correspondence", "%s: same output under a perturbed environment (%s) on %d of its lines" % (suite, " ".join("%s=%s" % kv for kv in sorted(env.items())), len(sub)), bad == 0 and crashes == 0,
+               "%d differing, %d crashes" % (bad, crashes))
+
+
 def run_suite(ctx, exe, suite, lines, what, env=None, max_report=4, canon_c=None, relcheck=None):
     """Differential run of one suite. Registers the correspondence obligation and the
     spec-on-implementation obligation; files violations with the line as replay.
@@ -503,7 +548,7 @@ def run_suite(ctx, exe, suite, lines, what, env=None, max_report=4, canon_c=None
             if reported < max_report:
                 reported += 1
                 ctx.violation("%s:%s" % (suite, l), "%s: `%s` gives %r, the property requires %r" % (what, l if len(l) < 200 else l[:200] + "...", clip(c), clip(spec if spec not in (None, "any") else "a result without sanitizer report / crash")),
-                              {"kind": "line", "suite": suite, "line": l, "observed": c, "expected": spec, "model": mm})
+                              {"kind": "line", "suite": suite, "line": l, "observed": c, "expected": spec, "model": mm, "env": env or {}})
     ctx.oblige("correspondence", "%s: C = model on %d lines" % (suite, len(lines)), not dis and not crashes,
                "%d disagreements, %d crashes%s" % (len(dis), len(crashes), ("; first: %r" % (dis[0][1:],)) if dis else ""))
     ctx.oblige("spec-on-impl", "%s: implementation output satisfies the Spec on %d lines" % (suite, len(lines)), specbad == 0, "%d failing" % specbad)
@@ -513,6 +558,8 @@ def run_suite(ctx, exe, suite, lines, what, env=None, max_report=4, canon_c=None
         i = len(lines) // 3
         ctx.sample({"suite": suite, "op": lines[i][:300], "c": (c_outs[i] or "")[:300], "model": (m_outs[i] or "")[:300]})
     ctx._pending_dis = getattr(ctx, "_pending_dis", []) + [(suite, l, c, m) for _, l, c, m in dis[:5]]
+    if env is None and os.environ.get("LWV_NO_PERTURB") != "1":
+        perturbed_rerun(ctx, exe, suite, lines, c_outs, m_outs, what, canon_c)
     return c_outs, m_outs, len(dis) + len(crashes)
 
 
@@ -559,7 +606,10 @@ def replay_line(rp, canon_c=None):
     exe, err = diffrun.build_harness("asan")
     if exe is None:
         return False, "harness does not build: %s" % (err or "")[-300:]
-    co, mo, d, cr = diffrun.differential(exe, [rp["line"]], canon_m=lambda m: split_model(m)[0])
+    co, mo, d, cr = diffrun.differential(exe, [rp["line"]], env=rp.get("env") or None, canon_m=lambda m: split_model(m)[0])
     spec = split_model(mo[0])[1]
+    if rp.get("suite", "").endswith("@perturbed") and spec in (None, "any"):
+        plain, _ = diffrun.run_harness_all(exe, [rp["line"]])
+        return co[0] == plain[0], "%s -> %r plain, %r with %s" % (rp["line"][:300], plain[0], co[0], rp.get("env"))
     c = canon_c(co[0]) if canon_c and co[0] else co[0]
     return spec_matches(c, spec), "%s -> %r (property requires %r)" % (rp["line"][:300], co[0], spec)
